@@ -30,6 +30,7 @@ type Program struct {
 	loops   map[*ssa.Function]*loopInfo
 	modsets map[*ssa.Function]*modSet
 
+	defAxioms    map[string]*T // definitional axioms of opaque spec functions, by UF name
 	unknownCalls map[string]int
 	specUses     map[string]bool
 	initFacts    map[string][]*T // package path -> entry assumptions from init()
@@ -71,7 +72,7 @@ func LoadProgram(repo string, patterns []string) (*Program, error) {
 	p := &Program{repo: repo, fset: pkgs[0].Fset, pkgs: pkgs, ssa: prog, ssaPkgs: map[string]*ssa.Package{},
 		contracts: NewContractSet(), strSyms: map[string]*T{}, strVals: map[string]string{}, subRefs: map[string]int{},
 		tagOf: map[string]int{}, loops: map[*ssa.Function]*loopInfo{}, modsets: map[*ssa.Function]*modSet{},
-		unknownCalls: map[string]int{}, specUses: map[string]bool{}, initFacts: map[string][]*T{}, initNotes: map[string][]string{}, initDone: map[string]bool{}}
+		defAxioms: map[string]*T{}, unknownCalls: map[string]int{}, specUses: map[string]bool{}, initFacts: map[string][]*T{}, initNotes: map[string][]string{}, initDone: map[string]bool{}}
 	for i, sp := range spkgs {
 		if sp == nil {
 			return nil, fmt.Errorf("no SSA package for %s", pkgs[i].PkgPath)
